@@ -120,10 +120,7 @@ func (ex *Exec) declareParams() {
 		if rf := g.rangeFact(p.Type(), n); rf != "" {
 			g.addFact(rf)
 		}
-		switch p.Type().Underlying().(type) {
-		case *types.Pointer, *types.Map:
-			ex.assumeAllocated(st, "true", n)
-		}
+		ex.assumeTypeAlloc(st, "true", p.Type(), n)
 	}
 	for _, fv := range ex.fn.FreeVars {
 		n := fmt.Sprintf("|fv:%s|", fv.Name())
@@ -299,6 +296,7 @@ func (ex *Exec) runVC() {
 				if rf := g.rangeFact(phi.Type(), n); rf != "" {
 					g.addFact(rf)
 				}
+				ex.assumeTypeAlloc(st, pc, phi.Type(), n)
 			}
 			for phi := range phiEntry {
 				if phi.Comment == "rangeindex" && g.mode == "int" {
